@@ -341,6 +341,14 @@ def run_case(desc, seed):
                 except M.Disabled:
                     continue
                 except Exception as e:
+                    if gm is not None:
+                        # a guess built from an operator truncated to bond dimension 1 may be zero or lie in no allowed block
+                        # ('Invalid quantum number'): a failure of the poor guess, counted, not claimed
+                        n_local_minimum += 1
+                        if not close(np.asarray(O.todense()), Od, 1e-9):
+                            record(st.trace + [f"variational_compress({vmethod},{gname})"], "variational-operator-changed", "x",
+                                   f"the operator passed to variational_compress changed by rel {rel_err(np.asarray(O.todense()), Od):.2e}")
+                        continue
                     record(st.trace + [f"variational_compress({vmethod},{gname})"], "exception:" + type(e).__name__ + ":variational_compress", "x", repr(e))
                     continue
                 nleaf += 1
